@@ -187,15 +187,32 @@ uint8_t g_w[11];
 #define URI_HEXV(c) ((c) <= '9' ? (c) - '0' : (c) - 'A' + 10)
 #define URI_SEG_END(c) ((c) == 0 || (c) == '/' || (c) == '?' || (c) == '#')
 
+/* Size-capped input strings (grade Pb): an object of symbolic size made the
+ * array encoding of the parser explode (48 GB), so the string lives in a
+ * CONSTANT-size object g_base[cap+1] and is RIGHT-ALIGNED in it: it occupies
+ * the last len+1 bytes, its terminator is the last byte of the object.  Any
+ * read past the terminator is therefore still out of bounds. */
+char *g_base;
+#define STR_RIGHT_ALIGNED_PRE(p, len, cap)                                  \
+	((len) <= (cap) && __CPROVER_is_fresh(g_base, (cap) + 1) &&         \
+	    __CPROVER_pointer_in_range_dfcc(g_base + ((cap) - (len)), (p),  \
+	        g_base + ((cap) - (len))) &&                                \
+	    (p)[(len)] == 0)
+
 /* ---- scheme table (url.c nni_schemes[]: 35 entries, longest 8 chars) ---- */
 #define URL_NSCHEMES 35
 #define URL_SCHEME_MAXLEN 8
 /* no NUL in s[0..j] / s has length exactly j (j <= 8) */
-#define SCH_NO_NUL_UPTO(s, j, v) \
-	__CPROVER_forall { size_t v; (v < 9) ==> ((v <= (j)) ==> (s)[v] != 0) }
-#define SCH_LEN_IS(s, j, v) \
-	((s)[(j)] == 0 &&   \
-	    __CPROVER_forall { size_t v; (v < 9) ==> ((v < (j)) ==> (s)[v] != 0) })
+#define SCH_NO_NUL_UPTO(s, j, v)                            \
+	__CPROVER_forall { size_t v; (v < 9) ==> ((v <= (j)) ==> \
+	    (v < STR_ROOM(s) && (s)[v] != 0)) }
+#define SCH_LEN_IS(s, j, v)                                            \
+	((j) < STR_ROOM(s) && (s)[(j)] == 0 &&                         \
+	    __CPROVER_forall { size_t v; (v < 9) ==> ((v < (j)) ==>    \
+	        (v < STR_ROOM(s) && (s)[v] != 0)) })
+/* input class of the scheme unit: at most 3 bytes after the first ':' */
+#define STR_SHORT_TAIL(p, len, cap, v) \
+	__CPROVER_forall { size_t v; (v < (cap)) ==> ((v + 4 < (len)) ==> (p)[v] != ':') }
 
 #define VP_SNAP_URL(u)                                                     \
 	size_t vp_in_bufsz = (u)->u_bufsz, vp_in_host = ((u)->u_hostname != NULL), \
